@@ -1,6 +1,7 @@
 SPECIFICATION Spec
 CONSTANTS
   BrokenMerge = FALSE
+  ValueCounts = FALSE
   DocDomain <- MCDocDomain
   Reqs <- MCReqs
   Queries = {"all", "g1"}
